@@ -33,33 +33,33 @@ theorem count_pos (b : Box) : 1 ≤ b.count := by
   cases b <;> simp [Box.count]
 
 /-- one decoding step on the encoding of a well-formed box followed by anything -/
-theorem decHeader_encBox (ctx : SencCtx) (b : Box) (tail : Bytes) (h : BoxWf ctx b) :
+theorem decHeader_encBox (ctx : SencCtx) (tl : Nat) (b : Box) (tail : Bytes) (h : BoxWf ctx b) :
     match b with
     | .leaf t l p =>
-      decHeader (encBox b ++ tail) =
+      decHeader tl (encBox b ++ tail) =
         some ({ typ := t, large := l, toEnd := false, size := hdrLen t l + (encPayload p).length },
               encPayload p ++ tail)
     | .node t l cs =>
-      decHeader (encBox b ++ tail) =
+      decHeader tl (encBox b ++ tail) =
         some ({ typ := t, large := l, toEnd := false, size := hdrLen t l + (encBoxes cs).length },
               encBoxes cs ++ tail) := by
   cases b with
   | leaf t l p =>
     simp only [BoxWf] at h
     simp only [encBox, List.append_assoc]
-    exact decHeader_encHeader t l _ _ h.1 h.2.2.2
+    exact decHeader_encHeader tl t l _ _ h.1 h.2.2.2
   | node t l cs =>
     simp only [BoxWf] at h
     simp only [encBox, List.append_assoc]
-    exact decHeader_encHeader t l _ _ h.1 h.2.2.2
+    exact decHeader_encHeader tl t l _ _ h.1 h.2.2.2
 
 theorem tree_roundtrip_fuel (ctx : SencCtx) :
-    ∀ (fuel : Nat) (cs : List Box), BoxesWf ctx cs → countBoxes cs ≤ fuel →
-      decBoxes ctx fuel (encBoxes cs) = some cs := by
+    ∀ (fuel : Nat) (tl : Nat) (cs : List Box), BoxesWf ctx cs → countBoxes cs ≤ fuel →
+      decBoxes ctx tl fuel (encBoxes cs) = some cs := by
   intro fuel
   induction fuel with
   | zero =>
-    intro cs _ hc
+    intro tl cs _ hc
     cases cs with
     | nil => simp [decBoxes, encBoxes]
     | cons b tl =>
@@ -67,7 +67,7 @@ theorem tree_roundtrip_fuel (ctx : SencCtx) :
       simp only [countBoxes] at hc
       omega
   | succ fuel ih =>
-    intro cs hwf hc
+    intro tail cs hwf hc
     cases cs with
     | nil => simp [decBoxes, encBoxes]
     | cons b tl =>
@@ -83,8 +83,8 @@ theorem tree_roundtrip_fuel (ctx : SencCtx) :
           simp only [List.length_append, List.length_nil] at this
           omega
         | cons _ _ => rfl
-      have htail := ih tl htl (by omega)
-      have hdr := decHeader_encBox ctx b (encBoxes tl) hb
+      have htail := ih tail tl htl (by omega)
+      have hdr := decHeader_encBox ctx tail b (encBoxes tl) hb
       cases b with
       | leaf t l p =>
         simp only [BoxWf] at hb
@@ -104,7 +104,7 @@ theorem tree_roundtrip_fuel (ctx : SencCtx) :
         obtain ⟨ht, hk, hcs, _⟩ := hb
         simp only at hdr
         simp only [Box.count] at hc
-        have hch := ih cs hcs (by omega)
+        have hch := ih ((encBoxes tl).length + tail) cs hcs (by omega)
         have hl : (encBox (.node t l cs) ++ encBoxes tl).length
             = hdrLen t l + (encBoxes cs).length + (encBoxes tl).length := by
           rw [List.length_append, encBox_node_length t l cs]
@@ -152,7 +152,7 @@ theorem count_le_length (ctx : SencCtx) : ∀ (fuel : Nat) (cs : List Box), coun
 theorem decFile_encBoxes (ctx : SencCtx) (cs : List Box) (h : BoxesWf ctx cs) :
     decFile ctx (encBoxes cs) = some cs := by
   unfold decFile
-  apply tree_roundtrip_fuel ctx _ cs h
+  apply tree_roundtrip_fuel ctx _ 0 cs h
   have := count_le_length ctx (countBoxes cs) cs (Nat.le_refl _) h
   omega
 
